@@ -273,7 +273,7 @@ Render(doc, i, C, fuel) ==
 Layers(doc) ==
   RenderSeq(doc, Children(doc, 0), 1,
             [m |-> Id, ctx |-> Inherit(DefaultCtx, doc.root), grp |-> <<>>, clips |-> <<>>, inst |-> 0,
-             vp |-> <<doc.vb[3], doc.vb[4]>>],
+             vp |-> <<doc.view[3], doc.view[4]>>],
             6, <<>>)
 
 (* ---------------------------------------------------------------- stacks *)
@@ -320,4 +320,9 @@ OutIn(l, p) == /\ l.bb[1] <= 8 * p[1] /\ 8 * p[1] <= l.bb[3]
 OutStack(layers, p) == StackAt(layers, OutIn, p)
 
 Nbrs(p) == { <<p[1] + dx, p[2] + dy>> : dx \in {-1, 0, 1}, dy \in {-1, 0, 1} }
+(* all grid points within r/8 units (Chebyshev) of p: the epsilon band scales with the viewBox *)
+NbrsR(p, r) == { <<p[1] + dx, p[2] + dy>> : dx \in (0 - r)..r, dy \in (0 - r)..r }
+(* 0.4% of the viewBox extent in 1/8 units, rounded up, at least 1 *)
+BandR(view) == LET w == IF view[3] > view[4] THEN view[3] ELSE view[4]
+               IN IF (w * 32 + 999) \div 1000 < 1 THEN 1 ELSE (w * 32 + 999) \div 1000
 =============================================================================
